@@ -62,7 +62,10 @@ pub unsafe extern "C" fn sendmsg(fd: c_int, msg: *const libc::msghdr, flags: c_i
     let mut limit: Option<usize> = None;
     let mut fail: Option<i32> = None;
     let mut matched = false;
-    if let Ok(mut g) = SCRIPT.try_lock() {
+    // (blocking lock: a contended try_lock used to skip the scripted step silently, so that the pattern depended on timing; the
+    // lock is only ever held for a few instructions and never across a system call)
+    {
+        let mut g = SCRIPT.lock().unwrap_or_else(|e| e.into_inner());
         if let Some(s) = g.as_mut() {
             if s.send_ino != 0 && ino_of(fd) == s.send_ino {
                 matched = true;
@@ -110,7 +113,8 @@ pub unsafe extern "C" fn sendmsg(fd: c_int, msg: *const libc::msghdr, flags: c_i
     };
     if matched {
         let saved = *libc::__errno_location();
-        if let Ok(mut g) = SCRIPT.try_lock() {
+        {
+            let mut g = SCRIPT.lock().unwrap_or_else(|e| e.into_inner());
             if let Some(s) = g.as_mut() {
                 s.attempts.push((total, nf, ret as i64));
             }
@@ -128,7 +132,8 @@ pub unsafe extern "C" fn sendmsg(fd: c_int, msg: *const libc::msghdr, flags: c_i
 #[no_mangle]
 pub unsafe extern "C" fn poll(fds: *mut libc::pollfd, nfds: libc::nfds_t, timeout: c_int) -> c_int {
     if !fds.is_null() && nfds > 0 {
-        if let Ok(mut g) = SCRIPT.try_lock() {
+        {
+            let mut g = SCRIPT.lock().unwrap_or_else(|e| e.into_inner());
             if let Some(s) = g.as_mut() {
                 let pf = std::slice::from_raw_parts_mut(fds, nfds as usize);
                 if s.send_ino != 0 && s.poll_timeouts > 0 && pf.iter().any(|p| p.fd >= 0 && p.events & libc::POLLOUT != 0 && ino_of(p.fd) == s.send_ino) {
@@ -161,7 +166,8 @@ pub static RSCRIPT: Mutex<Option<RecvScript>> = Mutex::new(None);
 #[no_mangle]
 pub unsafe extern "C" fn recvmsg(fd: c_int, msg: *mut libc::msghdr, flags: c_int) -> isize {
     let mut fail: Option<i32> = None;
-    if let Ok(mut g) = RSCRIPT.try_lock() {
+    {
+        let mut g = RSCRIPT.lock().unwrap_or_else(|e| e.into_inner());
         if let Some(s) = g.as_mut() {
             if !s.fails.is_empty() && s.ino != 0 && ino_of(fd) == s.ino {
                 if let Some(e) = s.fails.pop_front() {
